@@ -171,6 +171,27 @@ fn multi(t: &[&str]) -> String {
 
 fn main() {
     serve(|t| match t[0] {
+        // readall <archive> <names hex ,> -> name>OK:hex|NOTFOUND|ERR,... | sorted list name:size
+        "readall" => {
+            let mut a = match Archive::open(t[1]) { Ok(a) => a, Err(_) => return "OPEN-ERR".to_string() };
+            let reads: Vec<String> = t[2].split(',').map(|n| {
+                let name = String::from_utf8(unhex(n)).unwrap();
+                let r = match a.read_file(&name) {
+                    Ok(d) => format!("OK:{}", hex(&d)),
+                    Err(wow_mpq::Error::FileNotFound(_)) => "NOTFOUND".to_string(),
+                    Err(_) => "ERR".to_string(),
+                };
+                format!("{n}>{r}")
+            }).collect();
+            let lst = match a.find_file("(listfile)") {
+                Ok(Some(_)) => match a.list() {
+                    Ok(l) => { let mut v: Vec<String> = l.iter().map(|e| format!("{}:{:x}", hex(e.name.as_bytes()), e.size)).collect(); v.sort(); if v.is_empty() { "-".to_string() } else { v.join(",") } }
+                    Err(_) => "NOLIST".to_string(),
+                },
+                _ => "NOLIST".to_string(),
+            };
+            format!("{} | {}", reads.join(","), lst)
+        }
         "par" => par(&t[1..]),
         "multi" => multi(&t[1..]),
         "chain" => chain(&t[1..]),
